@@ -2,6 +2,7 @@
 import z3, time, numbers, sys
 
 W = 136  # default signed width
+DEBUG = bool(__import__('os').environ.get('SYMX_DEBUG'))
 
 
 class EngineLimit(Exception):
@@ -372,6 +373,7 @@ class Explorer:
     def int(self, name, lo, hi):
         v = SInt(z3.BitVec(name, self.W), lo, hi)
         self.pc.append(z3.And(v.t >= lo, v.t <= hi))
+        self.model = None
         self.inputs[name] = v
         return v
 
@@ -398,6 +400,7 @@ class Explorer:
     def assume(self, c):
         if isinstance(c, SBool):
             self.pc.append(c.t)
+            self.model = None
             if self._check(self.pc) != z3.sat:
                 raise PathAbort()
         elif not c:
@@ -419,9 +422,31 @@ class Explorer:
         i = len(self.trace)
         if i < len(self.prefix):
             d = self.prefix[i]
+            self.model = None          # a replayed decision may contradict a model cached by concretize()
         else:
-            rt = self._check(self.pc + [cond])
-            rf = self._check(self.pc + [z3.Not(cond)])
+            # model-guided: the last model satisfies the path condition, so it decides one side for free
+            side = None
+            m = getattr(self, 'model', None)
+            if m is not None:
+                if DEBUG:
+                    for c in self.pc:
+                        assert z3.is_true(m.eval(c, model_completion=True)), ('stale model', c)
+                v = m.eval(cond, model_completion=True)
+                if z3.is_true(v):
+                    side = True
+                elif z3.is_false(v):
+                    side = False
+            if side is None:
+                rt = self._check(self.pc + [cond])
+                if rt == z3.sat:
+                    self.model = self._last.model()
+                rf = self._check(self.pc + [z3.Not(cond)]) if rt != z3.unknown else z3.unknown
+            elif side:
+                rt = z3.sat
+                rf = self._check(self.pc + [z3.Not(cond)])
+            else:
+                rf = z3.sat
+                rt = self._check(self.pc + [cond])
             if rt == z3.unknown or rf == z3.unknown:
                 self.stats['unknown'] += 1
                 raise EngineLimit("solver unknown at branch")
@@ -434,6 +459,8 @@ class Explorer:
                 d = False
             else:
                 raise PathAbort()
+            if side is not None and d != side:
+                self.model = self._last.model()     # we follow the side the solver just found
         self.trace.append(d)
         self.pc.append(cond if d else z3.Not(cond))
         return d
@@ -442,7 +469,8 @@ class Explorer:
         r = self._check(self.pc)
         if r != z3.sat:
             raise PathAbort()
-        val = self._last.model().eval(v.t, model_completion=True).as_signed_long()
+        self.model = self._last.model()
+        val = self.model.eval(v.t, model_completion=True).as_signed_long()
         if self.branch(v.t == val):
             return val
         return self.concretize(v)
@@ -480,6 +508,7 @@ class Explorer:
                 raise EngineLimit("path budget")
             self.prefix = self.pending.pop()
             self.trace, self.pc, self.inputs, self.choices = [], [], {}, {}
+            self.model = None
             try:
                 fn(self)
             except PathAbort:
